@@ -73,6 +73,10 @@ def hostile_corpus():
         'macro self recursion': '.macro m\n m\n.endm\n m',
         'macro mutual recursion': '.macro a\n b\n.endm\n.macro b\n a\n.endm\n a',
         'macro recursion with growing argument': '.macro m\n m @0+1\n.endm\n m 1',
+        'macro recursion with doubling argument': '.macro m\n m @0+@0\n.endm\n m 1',
+        'macro recursion with doubling string': '.macro m\n m @0, @0\n.endm\n m "abcdefgh"',
+        'macro fan-out': '.macro m\n m @0+@0+@0+@0\n m @0\n.endm\n m 1',
+        'equ fan-out 14': '\n'.join(['.equ a%d = a%d + a%d' % (i, i + 1, i + 1) for i in range(14)] + ['.equ a14 = 1', ' .dw a0']),
         'symbol cycle': '.equ a = b\n.equ b = a\n ldi r16, a',
         'symbol cycle through function': '.equ a = low(a)\n ldi r16, a',
         'symbol chain 200': '\n'.join(['.equ s0 = 1'] + ['.equ s%d = s%d + 1' % (i, i - 1) for i in range(1, 200)] + [' .dw s199']),
@@ -121,6 +125,20 @@ def hostile_corpus():
         'pragma six': '#pragma a b c d e f\n#pragma a b c d e f g h',
         'pragma part': '#pragma AVRPART MEMORY PROG_FLASH 0xffffffffffff',
     }
+    # recursion that continues after a segment switch or an .org inside the macro body (the later segments of an expansion)
+    c['macro recursion after .org'] = '.macro m\nnop\n.org 0x10\nm\n.endm\nm'
+    c['macro recursion after segment switch'] = '.macro m\nnop\n.dseg\n.byte 1\n.cseg\nm\n.endm\nm'
+    c['macro mutual recursion across segments'] = '.macro a\n.eseg\n.db 1\n.cseg\nb\n.endm\n.macro b\nnop\n.dseg\n.byte 1\n.cseg\na\n.endm\na'
+    # every pair of defining constructs on one name, in both orders, then a use (the second definition meets state the first left)
+    defs = {'label': 'nm:', 'equ': '.equ nm = 1', 'set': '.set nm = 2', 'def': '.def nm = r16', 'define': '.define nm', 'macro': '.macro nm\nnop\n.endm',
+            'undef': '.undef nm', 'dseg label': '.dseg\nnm: .byte 1\n.cseg', 'set self': '.set nm = nm + 1'}
+    for a, ta in defs.items():
+        for b, tb in defs.items():
+            for use in ('ldi r17, nm', 'mov nm, r1', 'nm', '.ifdef nm\nnop\n.endif'):
+                c['clash %s / %s / %s' % (a, b, use.split()[0])] = ta + '\n' + tb + '\n ' + use
+    for special in ('pc', 'PC', 'r16', 'X', 'low', 'defined'):
+        for ta in defs.values():
+            c['special name %s in %s' % (special, ta.split()[0] + ta[-3:])] = ta.replace('nm', special) + '\n nop'
     # the recorded finding: nesting deep enough to exhaust the 8 MiB main-thread stack in the PEG parser
     known = {
         'parens 30000': ' ldi r16, ' + '(' * 30000 + '1' + ')' * 30000,
@@ -290,6 +308,16 @@ def run(tier, seed, model_ok):
         kimpl, kbad = run_isolated([('k_' + k.replace(' ', '_'), 'B', v.encode().hex()) for k, v in known.items()])
     finally:
         shutil.rmtree(root, ignore_errors=True)
+    # the second recorded finding: evaluation time doubles with every level of an .equ chain that uses the next
+    # definition twice (no memoisation).  Criterion independent of the machine: 22 levels take more than 8 times as
+    # long as 17 levels (2^5 = 32 expected) and more than 0.3 s.
+    def fan_time(n):
+        fan = '\n'.join(['.equ a%d = a%d + a%d' % (i, i + 1, i + 1) for i in range(n)] + ['.equ a%d = 1' % n, ' .dw a0'])
+        t = time.time(); fr, fst = run_worker([('k_fan', 'B', fan.encode().hex())], 120); return time.time() - t, fst
+    t17, _ = fan_time(17); t22, st22 = fan_time(22)
+    if st22 != 'ok' or (t22 > 0.3 and t22 > 8 * max(t17, 0.005)):
+        vio.append({'what': 'evaluation of a chain of .equ definitions that each use the next one twice takes time 2^n', 'input': 'equ fan-out 17 vs 22',
+                    'result': '17 levels %.2f s, 22 levels %.2f s' % (t17, t22), 'key': 'equ-fanout'})
     for k in known:
         tid = 'k_' + k.replace(' ', '_')
         if tid in kbad or not (kimpl.get(tid, '').startswith(('OK', 'ERR'))):
@@ -306,4 +334,6 @@ def run(tier, seed, model_ok):
     }
 
 def matches_known(k, v):
+    if k.get('id') == 'equ-fanout-exponential':
+        return v.get('key') == 'equ-fanout' and v.get('input') in k.get('inputs', [])
     return k.get('id') == 'deep-expression-nesting' and v.get('key', '').startswith('deep-nesting:') and v.get('input') in k.get('inputs', [])
